@@ -97,7 +97,10 @@ def execute(sc):
 
         def seg_data(n):
             fb = final_marker(sc['marker'], n, last)
-            return bytes(make_data(prefix + ver + [SEG(n)], MetaInfo(final_block_id=fb, freshness_period=sc.get('fresh', 10)), content(n), DigestSha256Signer()))
+            # producers of other libraries omit the optional ContentType element for BLOB content
+            mi = MetaInfo(final_block_id=fb, freshness_period=sc.get('fresh', 10)) if sc.get('ctype', 'encoded') == 'encoded' else \
+                MetaInfo(content_type=None, final_block_id=fb, freshness_period=sc.get('fresh', 10))
+            return bytes(make_data(prefix + ver + [SEG(n)], mi, content(n), DigestSha256Signer()))
 
         def on_send(wire):
             try:
@@ -159,6 +162,26 @@ def execute(sc):
         name_arg = {'list': lambda: list(prefix), 'tuple': lambda: tuple(prefix), 'uri': lambda: rc.name_to_uri(prefix, canonical=True),
                     'encoded': lambda: rc.enc_name(prefix), 'generator': lambda: (c for c in prefix), 'iterator': lambda: iter(list(prefix)),
                     'list-str': lambda: [rc.comp_to_canonical_uri(c) for c in prefix]}[form]()
+        # a validator is anything that, called with (name, signature pointers), returns an awaitable: a coroutine function, a
+        # lambda / partial that forwards to one, an object with an async __call__
+        vform = sc.get('validator_form', 'function')
+        if vform == 'lambda':
+            inner_v = validator
+            validator = lambda n_, s_: inner_v(n_, s_)   # noqa
+        elif vform == 'partial':
+            import functools
+
+            async def v3(tag, n_, s_, inner_v=validator):
+                return await inner_v(n_, s_)
+            validator = functools.partial(v3, 'tag')
+        elif vform == 'object':
+            class V:
+                def __init__(self, f):
+                    self.f = f
+
+                async def __call__(self, n_, s_):
+                    return await self.f(n_, s_)
+            validator = V(validator)
         kw = {'validator': validator}
         if sc.get('validator_via') == 'app-default':
             # no validator argument: the application-wide data validator is the one in force (documented default)
@@ -193,7 +216,8 @@ def gen_script(rng):
     sc = {'n': n, 'retry': retry, 'version': rng.random() < 0.5, 'marker': rng.choice(['every', 'last', 'estimate']), 'fresh': rng.choice([10, 10, 0, None]),
           'disc_answer': rng.randrange(n) if n else 0, 'loss': {}, 'fault': None,
           'name_form': rng.choice(['list', 'list', 'tuple', 'uri', 'encoded', 'generator', 'iterator', 'list-str']),
-          'validator_via': rng.choice(['argument', 'argument', 'app-default'])}
+          'validator_via': rng.choice(['argument', 'argument', 'app-default']), 'ctype': rng.choice(['encoded', 'encoded', 'omitted']),
+          'validator_form': rng.choice(['function', 'function', 'lambda', 'partial', 'object'])}
     keys = ['disc'] + list(range(n))
     for k in keys:
         if rng.random() < 0.35:
@@ -237,6 +261,8 @@ def judge(ctx, sc, R, S):
     ctx.event('freshness-' + str(sc.get('fresh', 10)))
     ctx.event('name-form-' + sc.get('name_form', 'list'))
     ctx.event('validator-via-' + sc.get('validator_via', 'argument'))
+    ctx.event('content-type-' + sc.get('ctype', 'encoded'))
+    ctx.event('validator-form-' + sc.get('validator_form', 'function'))
     if sc.get('name_form') in ('generator', 'iterator') and sc['loss'].get('disc'):
         ctx.event('one-shot-name-with-lost-discovery')
     ctx.case(repr(sorted(sc.items(), key=str)), nontrivial=sc['n'] > 1 or bool(sc['loss']) or bool(fault),
@@ -501,6 +527,6 @@ def run(ctx):
         obs, S = execute_concurrent(sc)
         judge_concurrent(ctx, sc, obs, S)
     for k in ('marker-estimate', 'freshness-None', 'freshness-0', 'outcome-done', 'outcome-timeout', 'outcome-nack', 'outcome-valfail', 'concurrent-fetch', 'concurrent-outcome-done', 'concurrent-outcome-timeout',
-              'concurrent-data-shared-between-fetchers', 'one-shot-name-with-lost-discovery', 'validator-via-app-default'):
+              'concurrent-data-shared-between-fetchers', 'one-shot-name-with-lost-discovery', 'validator-via-app-default', 'content-type-omitted', 'validator-form-lambda', 'validator-form-object', 'validator-form-partial'):
         ctx.need_event(k)
     ctx.assumptions = ['an object without any final-block marker is outside the statement', 'the legacy front-end is the one segment_fetcher uses']
